@@ -7,7 +7,8 @@
      (L1) order:  score >= thr in binary32  <->  tq <= val score          (tq = the threshold's value)
      (L2) error:  | val (binary32 score of position i) - exact score of position i | <= eps
    (L1 holds for finite floats with val = the exact rational value; L2 is C01_fsum_error_bound
-   transported to Q -- neither transport is done here, hence the _partial names in E2EStat.v). *)
+   transported to Q -- both transports are done in E2EStatFloat.v; the theorems of this file keep the link
+   abstract, hence the names stat_threshold_scan_*_link in E2EStat.v). *)
 From Coq Require Import List Arith Bool Lia ZArith QArith Qabs Lqa Permutation.
 From LMBase Require Import Res ListX IEEE.
 From LMDist Require DistModel DistInst DistTail DistThms DistStretch DistWords C11.
